@@ -614,7 +614,7 @@ func init() {
 		},
 		Run:           c11Run,
 		MinNontrivial: 500,
-		Rule: "cases 0..79799 enumerate exhaustively 10 integer kinds x bases 2..36 x 57 boundary values {min-1,min,min+1,-1,0,1,max-1,max,max+1, +-2^k and +-2^k+-1 for k in 7,8,15,16,31,32,63,64} x 4 spellings {plain, leading zeros, upper-case digits, plus sign}; the rest draw from float32/64 tables (limits, halfway cases, long mantissas, special forms) and random decimals, Duration unit combinations at the int64 limits, decorated integers, map entries (k:v, k:, k, :v, k:v:w), func(bool) arguments, value- and pointer-receiver Unmarshalers (also bool-kinded and in map-key position), integers with base:\"0\" in every prefixed spelling, arguments that start with a double quote (Go string literal or malformed, unquote on), strings, and choice sets of size 1-5 with near-miss values; wrapped as scalar / pointer / slice / slice of pointers / callback; delivered through the command line (unquote off), an INI entry or a default tag. " +
+		Rule: "1 case in 16: an int / uint8 / float64 / Duration option registered with AddOption (on the parser or a namespaced group, with or without Choices), text from the same generators, attached or as the next token: judged by the reference conversions. cases 0..79799 enumerate exhaustively 10 integer kinds x bases 2..36 x 57 boundary values {min-1,min,min+1,-1,0,1,max-1,max,max+1, +-2^k and +-2^k+-1 for k in 7,8,15,16,31,32,63,64} x 4 spellings {plain, leading zeros, upper-case digits, plus sign}; the rest draw from float32/64 tables (limits, halfway cases, long mantissas, special forms) and random decimals, Duration unit combinations at the int64 limits, decorated integers, map entries (k:v, k:, k, :v, k:v:w), func(bool) arguments, value- and pointer-receiver Unmarshalers (also bool-kinded and in map-key position), integers with base:\"0\" in every prefixed spelling, arguments that start with a double quote (Go string literal or malformed, unquote on), strings, and choice sets of size 1-5 with near-miss values; wrapped as scalar / pointer / slice / slice of pointers / callback; delivered through the command line (unquote off), an INI entry or a default tag. " +
 			"Oracle: independent big.Int/big.Rat reference functions classify each text as must-accept / must-reject / may-either; accepted values must equal the reference value bit-exactly; rejections must be ErrMarshal / ErrInvalidChoice identifying the option (and listing every choice). distinct = (type, base, channel, class, outcome, text length).",
 		Assumptions: []string{"liberal-only forms (+5, 0x prefixes, underscores, Inf/NaN, underflow to zero, sub-nanosecond fractions, bare-dot forms, k without colon) are may-either", "IniError carries no Type: its message is mapped to the flag error it wraps"},
 		Technique:   "runtime reference-model monitor: arbitrary-precision reference conversions (not strconv) as a three-way oracle; exhaustive integer kind x base x boundary enumeration; metamorphic history monitor ([use, change of the public model, use] on one parser vs. a fresh parser of the changed declaration)",
